@@ -4,8 +4,10 @@
 EXTENDS Integers, Sequences, FiniteSets, TLC, Json, Storage
 CONSTANTS Mode, MaxOps, Emit
 V(k, t, md) == [k |-> k, t |-> t, m |-> md]
-\* f64: +0.0 / -0.0 (equal, distinguishable), 1.0, NaN;  keytag: equal iff same key and different tag
+\* f64: +0.0 / -0.0 (equal, distinguishable), 1.0, NaN;  keytag: equal iff same key and different tag;
+\* near: numbers equal iff they differ by at most 1 (not transitive)
 Values == IF Mode = "f64" THEN {V("zero", 0, "std"), V("zero", 1, "std"), V("one", 0, "std"), V("nan", 0, "nan")}
+          ELSE IF Mode = "near" THEN {V("n", 10, "near"), V("n", 11, "near"), V("n", 12, "near")} \cup (IF MaxOps >= 6 THEN {V("n", 14, "near")} ELSE {})
           ELSE {V("k1", 4, "difftag"), V("k1", 5, "difftag"), V("k2", 4, "difftag")}
 VARIABLES data, toks, appended, hist     \* toks: tokens handed out; appended: tokens returned by append
 vars == <<data, toks, appended, hist>>
